@@ -276,6 +276,11 @@ func (u *Upstream) WriteDataPoints(ctx context.Context, dataID *message.DataID, 
 		return nil
 	}
 
+	// the flush loop reads the group after this call has returned: hand it copies, the data ID and the variadic slice stay the caller's
+	id := *dataID
+	dataID = &id
+	dps = append(make([]*message.DataPoint, 0, len(dps)), dps...)
+
 	select {
 	case <-u.ctx.Done():
 		return errors.ErrStreamClosed
